@@ -2,6 +2,7 @@
    2002 [fmt; payload] -> [document assembled by the shape of spec/SpecOwn.v; hypotheses of the own-output theorem hold?]
         fmt 1 MicroDVD: payload [d1; d2; txt0; [[prefix; txt] ...]]     fmt 2 WebVTT: payload [piece ...]
         fmt 4 SRT:      payload [[timing line; text] ...] (non-empty)    fmt 5 SCC:    payload body
+        [0; pre; post] DFXP skeleton pre ++ "</tt>" ++ post             [3; rest] SAMI skeleton "<sami" ++ rest
    2003 [fmt; [[ [start; end; [node ...]] ...] ...]]  node = [0; text] | [1] | [2; start?; italics; underline; bold]
         -> [document written by the writer model of model/OwnWrite.v (fmt 1 MicroDVD, 2 WebVTT, 4 SRT);
             caption set in the domain of the own-output theorem that starts from the text nodes (spec/SpecOwnNodes.v)?;
@@ -55,6 +56,8 @@ Definition req_c20_shape (arg : sx) : sx :=
       | None => bad
       end
   | SL [SI 5; SS body] => SL [SS (scc_document body); of_bool (forallb scc_body_char body)]
+  | SL [SI 0; SS pre; SS post] => SL [SS (dfxp_document pre post); of_bool true]
+  | SL [SI 3; SS rest] => SL [SS (sami_document rest); of_bool (free before_sami (sami_document rest))]
   | _ => bad
   end.
 
